@@ -79,9 +79,15 @@ def find_method(src, impl_re, fn_name):
         raise Unsupported("impl header not found: %s" % impl_re)
     i = txt.index("{", m.end())
     blk = balanced(txt, i)
-    fm = re.search(r"\bfn\s+%s\s*(<[^>]*>)?\s*\(" % re.escape(fn_name), blk)
-    if not fm:
+    fms = list(re.finditer(r"\bfn\s+%s\s*(<[^>]*>)?\s*\(" % re.escape(fn_name), blk))
+    if not fms:
         raise Unsupported("fn %s not found in impl %s" % (fn_name, impl_re))
+    if len(fms) > 1:
+        raise Unsupported("fn %s is defined %d times in impl %s (conditional compilation?): which body runs depends on the build" % (fn_name, len(fms), impl_re))
+    fm = fms[0]
+    attrs = re.search(r"((?:#\[(?:[^\[\]]|\[[^\]]*\])*\]\s*)*)(?:pub(?:\([a-z]+\))?\s+)?(?:unsafe\s+)?(?:const\s+)?$", blk[:fm.start()])
+    if attrs and re.search(r"\bcfg", attrs.group(1)):
+        raise Unsupported("fn %s in impl %s is conditionally compiled (%s)" % (fn_name, impl_re, " ".join(attrs.group(1).split())))
     j = blk.index("(", fm.start())
     params_txt = balanced(blk, j, "(", ")")
     k = blk.index("{", j + len(params_txt))
@@ -566,6 +572,46 @@ def as_nat(v):
 OBJ_PRINT = {}      # object kind -> printer (registered by the entry definitions)
 def T(t): return ("T", t)
 def B(b): return ("B", b)
+def mark_clone(v):
+    """the value of `x.clone()`: the SAME term (Clone is lawful: a clone equals its original, trusted base) carrying a python-side
+    tag that survives moves and stores but no computation; used only for the effect signature (which of the returned / stored
+    values is the clone and which the original)"""
+    k = v[0]
+    if k in ("T", "optraw", "raw") and len(v) == 2: return (k, v[1], "cl")
+    if k == "opt" and v[1] is not None: return ("opt", mark_clone(v[1]))
+    if k == "tuple": return ("tuple", [mark_clone(x) for x in v[1]])
+    return v
+def untag(v):
+    if isinstance(v, tuple):
+        if len(v) == 3 and v[2] == "cl" and v[0] in ("T", "optraw", "raw"): return (v[0], untag(v[1]))
+        return tuple(untag(x) for x in v)
+    if isinstance(v, list): return [untag(x) for x in v]
+    if isinstance(v, dict): return {k_: untag(x) for k_, x in v.items()}
+    return v
+def clone_paths(v, path, acc):
+    """paths (Option / variant payloads transparent) at which a cloned value sits unmodified"""
+    if not isinstance(v, tuple) or not v: return acc
+    k = v[0]
+    if k in ("T", "optraw", "raw") and len(v) == 3 and v[2] == "cl": acc.append(path or ".")
+    elif k == "opt" and v[1] is not None: clone_paths(v[1], path, acc)
+    elif k in ("tuple", "array"):
+        for i_, x in enumerate(v[1]): clone_paths(x, "%s.%d" % (path, i_), acc)
+    elif k == "struct":
+        for f_ in sorted(v[1]):
+            if f_ != "__sub": clone_paths(v[1][f_], "%s.%s" % (path, f_), acc)
+    elif k == "variant":
+        for i_, x in enumerate(v[2]): clone_paths(x, "%s.%s.%d" % (path, v[1], i_), acc)
+    elif k == "tagged": clone_paths(v[1], path, acc)
+    return acc
+def dirty_paths(a, b, path, acc):
+    """paths at which the value b differs from a (clone tags ignored)"""
+    if untag(a) == untag(b): return acc
+    if isinstance(a, tuple) and isinstance(b, tuple) and a and b and a[0] == b[0] == "struct" and set(a[1]) == set(b[1]):
+        for f_ in sorted(a[1]):
+            if f_ != "__sub": dirty_paths(a[1][f_], b[1][f_], "%s.%s" % (path, f_), acc)
+    else: acc.append(path or ".")
+    return acc
+ABSTRACT_CALLS = {("mach", "filter"), ("src", "source"), ("pipe", "filter"), ("pipe", "source"), ("pipe", "sink"), ("pipe", "finalize"), ("snk", "sink"), ("snk", "finalize")}
 ENUM_TYPES = ("Ordering", "Slope", "Peak", "ChainState", "PadState")
 ENUM_COQ = {"Rising": "Rising", "None": "Flat", "Falling": "Falling", "Max": "PMax", "Min": "PMin", "Less": "Lt", "Equal": "Eq", "Greater": "Gt"}
 
@@ -574,6 +620,9 @@ def merge(c, a, b, strict=False):
     """value of `if c then a else b`; strict: keep the conditional even when both branches are the same sample term
     (the model's `if` is not convertible with its branch while the condition is symbolic)"""
     if a == b and not (strict and a[0] in ("T", "B")): return a
+    if untag(a) == untag(b) and a != b and not (strict and a[0] in ("T", "B")): return a
+    if a[0] in ("T", "optraw", "raw") and len(a) == 3: a = a[:2]
+    if b[0] in ("T", "optraw", "raw") and len(b) == 3: b = b[:2]
     if a[0] != b[0]:
         raise Unsupported("branches of a conditional produce values of different shapes (%s / %s)" % (a[0], b[0]))
     k = a[0]
@@ -670,6 +719,8 @@ class Sym:
         self.find_helper = None   # callback(name) -> (AST, [parameter names]) of a helper method in the same file, or None
         self.while_handler = None # callback(sym, env, while-AST): unrolls once and/or summarises the loop by the model's loop function
         self.loop_summary = None  # callback(sym, env, for-AST) summarising a range loop by a hypothesis about the model's loop function
+        self.self0 = []           # stack of the receiver values at entry of the (inlined) methods being executed
+        self.effects = []         # effect signature: receiver fields already written when an abstract component (which may panic) is called
 
     def decide(self, what_true, what_false):
         """path-splitting: take the next assumed outcome of a symbolic test and record it as a hypothesis"""
@@ -1270,6 +1321,7 @@ class Sym:
         if name in ("clone", "into_iter", "iter", "as_ref", "borrow", "to_owned"):
             r0 = self.ev(recv_e, env)
             if name in ("iter", "into_iter") and r0[0] == "obj" and r0[1] == "ring": return ("L", str(r0[2][0]))
+            if name in ("clone", "to_owned"): return mark_clone(r0)
             return r0
         if name == "state_mut" and not args_e:
             v = self.ev(recv_e, env)
@@ -1404,11 +1456,13 @@ class Sym:
                 self.depth += 1
                 if self.depth > 6: raise Unsupported("self recursion deeper than 6")
             for pn, a in zip(pnames, args): inner.vars[pn] = a
+            self.self0.append(recv)
             try:
                 ret = self.block(ast, inner)
             except Return as r:
                 ret = r.value
             finally:
+                self.self0.pop()
                 if selfcall: self.depth -= 1
             self.store(env, recv_e, inner.get("self"))
             return ret
@@ -1416,6 +1470,12 @@ class Sym:
             key = (recv[1], name)
             if key in self.prims:
                 args = [self.ev(a, env) for a in args_e]
+                if key in ABSTRACT_CALLS and self.self0:
+                    try: cur_ = env.get("self")
+                    except Exception: cur_ = None
+                    if cur_ is not None:
+                        d_ = dirty_paths(self.self0[-1], cur_, "self", [])
+                        if d_: self.effects.append("written before the call of %s.%s: %s" % (key[0], key[1], ", ".join(d_)))
                 res, newobj = self.prims[key](self, recv, args)
                 if newobj is not None:
                     self.store(env, recv_e, newobj)
